@@ -287,7 +287,7 @@ fn compute_block_number_to_be_signed(&self, block_number: BlockNumber) -> (ret: 
     ensures ret.0 == tx_beacon(block_number.0, self.security_parameter.0, self.step.0)
 {
         proof { lemma_floor_to(self.step.0 as int, 15); lemma_tx_step(self.step.0); lemma_floor_to(sat_sub(block_number.0, self.security_parameter.0) as int, tx_step(self.step.0)); }
-        let adjusted_step = BlockRange::from_block_number(self.step).start;
+        let adjusted_step = BlockRange::start(self.step);
         // We can't have a step lower than the block range length.
         let adjusted_step = std::cmp::max(adjusted_step, BlockRange::LENGTH);
 
